@@ -1,3 +1,4 @@
+import PyCraft.Generated.Enums
 import PyCraft.Lemmas.Enums
 import PyCraft.Lemmas.Trackers
 import PyCraft.Lemmas.Records
@@ -459,5 +460,21 @@ example : multiGet ["x", "x"] (multiSet ["x", "x"] [] [1, 2]) =
     (.ok [2, 2] : Except Err (List Nat)) := by decide
 
 end examples
+
+end PyCraft.C20
+
+/-! ## Every flag enum found in the library (tabulated from the live classes on every run) -/
+namespace PyCraft.C20
+open PyCraft.Gen PyCraft.Enums
+
+theorem library_flag_enums_check : ∀ e ∈ flagEnums, checkEnum e.2 = true := by decide +kernel
+
+/-- For every flag enum in the library and every value 0..255: a printed name parses back to the
+value it was printed for. -/
+theorem library_flag_names_parse_back :
+    ∀ e ∈ flagEnums, ∀ v, v < 256 → ∀ s, nameFromValue e.2 v = some s → parseName e.2 s = some v :=
+  fun e he => checkEnum_parses_back e.2 (library_flag_enums_check e he)
+
+example : flagEnums.length ≥ 3 := by decide +kernel
 
 end PyCraft.C20
